@@ -102,7 +102,9 @@ def generate(seed, tier):
     return {"mode": "sessions", "sessions": sess, "faults": faults,
             "schedule": cm.gen_schedule(rng, n, nsteps), "io_seed": rng.randrange(1 << 30),
             "short_reads": rng.random() < 0.8, "listdir_seed": rng.randrange(1 << 30),
-            "hashseed2": rng.random() < (0.8 if any(s["kind"] == "ptb" for s in sess) else 0.3)}
+            "hashseed2": rng.random() < (0.8 if any(
+                s["kind"] == "ptb" or any(f.get("parens") for f in s["files"].values())
+                for s in sess) else 0.3)}
 
 
 def gen_directory(rng, tier):
